@@ -1,6 +1,7 @@
 package main
 
 import (
+	"fmt"
 	"go/types"
 	"strings"
 
@@ -346,4 +347,211 @@ func (sa *sinkAnalysis) isEntryPoint(fn *ssa.Function) bool {
 		return false
 	}
 	return true
+}
+
+// terminalRoots lists where a writer value ultimately comes from, following
+// the same identity-preserving steps as root(): in-memory allocations,
+// globals, results of non-constructor calls (e.g. a pool's Get), parameters
+// of entry points.
+func (sa *sinkAnalysis) terminalRoots(v ssa.Value) []ssa.Value {
+	seen := map[ssa.Value]bool{}
+	var out []ssa.Value
+	var walk func(v ssa.Value, d int)
+	walk = func(v ssa.Value, d int) {
+		if v == nil || seen[v] || d > 24 {
+			return
+		}
+		seen[v] = true
+		switch x := v.(type) {
+		case *ssa.MakeInterface:
+			walk(x.X, d+1)
+		case *ssa.ChangeInterface:
+			walk(x.X, d+1)
+		case *ssa.ChangeType:
+			walk(x.X, d+1)
+		case *ssa.TypeAssert:
+			walk(x.X, d+1)
+		case *ssa.Extract:
+			walk(x.Tuple, d+1)
+		case *ssa.Phi:
+			for _, e := range x.Edges {
+				walk(e, d+1)
+			}
+		case *ssa.Alloc:
+			if typeIsInfallibleSink(x.Type()) {
+				out = append(out, x)
+				return
+			}
+			n := 0
+			for _, ref := range *x.Referrers() {
+				if st, ok := ref.(*ssa.Store); ok && st.Addr == ssa.Value(x) {
+					n++
+					walk(st.Val, d+1)
+				}
+			}
+			if n == 0 {
+				out = append(out, x)
+			}
+		case *ssa.Call:
+			cc := x.Common()
+			if o := calleeObj(x); o != nil {
+				q := qualifiedName(o)
+				if wrapperCtors[q] && len(cc.Args) > 0 {
+					walk(cc.Args[0], d+1)
+					return
+				}
+				if q == "io.MultiWriter" && len(cc.Args) == 1 {
+					for _, e := range variadicElems(cc.Args[0]) {
+						walk(e, d+1)
+					}
+					return
+				}
+			}
+			if sc := cc.StaticCallee(); sc != nil && sc.Blocks != nil && sa.c.isModuleFunc(sc) {
+				for _, b := range sc.Blocks {
+					if r, ok := b.Instrs[len(b.Instrs)-1].(*ssa.Return); ok {
+						for _, res := range r.Results {
+							if isWriterish(res.Type()) {
+								walk(res, d+1)
+							}
+						}
+					}
+				}
+				return
+			}
+			out = append(out, x)
+		case *ssa.UnOp:
+			switch a := x.X.(type) {
+			case *ssa.Alloc:
+				walk(a, d+1)
+			case *ssa.FieldAddr:
+				for _, val := range sa.fields[fieldKey(a)] {
+					walk(val, d+1)
+				}
+			case *ssa.FreeVar:
+				walk(a, d+1)
+			case *ssa.Global:
+				out = append(out, a)
+			}
+		case *ssa.FreeVar:
+			fn := x.Parent()
+			if p := fn.Parent(); p != nil {
+				forEachInstr(p, func(in ssa.Instruction) {
+					if mc, ok := in.(*ssa.MakeClosure); ok && mc.Fn == fn {
+						for i, fv := range fn.FreeVars {
+							if fv == x && i < len(mc.Bindings) {
+								walk(mc.Bindings[i], d+1)
+							}
+						}
+					}
+				})
+			}
+		case *ssa.Parameter:
+			fn := x.Parent()
+			idx := -1
+			for i, p := range fn.Params {
+				if p == x {
+					idx = i
+				}
+			}
+			if idx < 0 || sa.isEntryPoint(fn) {
+				out = append(out, x)
+				return
+			}
+			sites := 0
+			for _, caller := range sa.scope {
+				forEachInstr(caller, func(in ssa.Instruction) {
+					call, ok := in.(ssa.CallInstruction)
+					if !ok {
+						return
+					}
+					cc := call.Common()
+					if cc.StaticCallee() == fn && idx < len(cc.Args) {
+						sites++
+						walk(cc.Args[idx], d+1)
+					} else if cc.StaticCallee() == nil && !cc.IsInvoke() && fn.Signature.Recv() == nil {
+						if _, isB := cc.Value.(*ssa.Builtin); !isB && types.Identical(cc.Value.Type().Underlying(), fn.Signature) && idx < len(cc.Args) {
+							sites++
+							walk(cc.Args[idx], d+1)
+						}
+					}
+				})
+			}
+			if sites == 0 {
+				out = append(out, x)
+			}
+		case *ssa.Global:
+			out = append(out, x)
+		default:
+			out = append(out, v)
+		}
+	}
+	walk(v, 0)
+	return out
+}
+
+// freshBufferRoot: the root is a zero-valued local buffer, or a buffer
+// obtained elsewhere that is Reset before any other use in its function.
+func freshBufferRoot(root ssa.Value) (bool, string) {
+	switch x := root.(type) {
+	case *ssa.Alloc:
+		return true, "local allocation"
+	case *ssa.Call:
+		if o := calleeObj(x); o != nil {
+			q := qualifiedName(o)
+			if infallibleCtors[q] {
+				return true, q
+			}
+			// e.g. (*sync.Pool).Get: require Reset dominating every other use
+			name := funcObjName(o)
+			var users []ssa.Instruction
+			var collect func(v ssa.Value, d int)
+			collect = func(v ssa.Value, d int) {
+				if d > 4 || v.Referrers() == nil {
+					return
+				}
+				for _, ref := range *v.Referrers() {
+					switch r := ref.(type) {
+					case *ssa.TypeAssert:
+						collect(r, d+1)
+					case *ssa.Extract:
+						collect(r, d+1)
+					case *ssa.MakeInterface:
+						collect(r, d+1)
+					default:
+						users = append(users, ref)
+					}
+				}
+			}
+			collect(x, 0)
+			var reset ssa.Instruction
+			for _, u := range users {
+				if call, ok := u.(*ssa.Call); ok {
+					if uo := calleeObj(call); uo != nil && (uo.Name() == "Reset" || uo.Name() == "Truncate") {
+						reset = u
+					}
+				}
+			}
+			if reset == nil {
+				return false, "obtained from " + name + " and never Reset: it can still hold bytes of an earlier packaging"
+			}
+			for _, u := range users {
+				if u == reset {
+					continue
+				}
+				if _, isDefer := u.(*ssa.Defer); isDefer {
+					continue
+				}
+				if !instrDominates(reset, u) {
+					return false, "obtained from " + name + " and used before it is Reset"
+				}
+			}
+			return true, "obtained from " + name + " and Reset before use"
+		}
+	case *ssa.Parameter:
+		return true, "caller-supplied"
+	case *ssa.Global:
+		return false, "package-level buffer " + globalName(x) + ": shared by all packagings"
+	}
+	return true, fmt.Sprintf("%T", root)
 }
